@@ -89,6 +89,38 @@ def replay_case(arg):
             cnt['evaluations'] = cnt.get('evaluations', 0) + 3
         except Exception as e:
             fail('Transform', type(e).__name__, repr(e))
+    # ---- a heterogeneous leaf (one population parameter per individual and dimension): the wrapper is built for one
+    # individual and told the number of individuals afterwards, as a hierarchical likelihood does -- the default selection
+    # ("all parameters") is then the selection of ALL the new parameters, every one of them shifted by its covariates
+    if ni >= 2:
+        try:
+            with warnings.catch_warnings():
+                warnings.simplefilter('ignore')
+                hc = chi.CovariatePopulationModel(chi.HeterogeneousModel(n_dim=nd), chi.LinearCovariateModel(n_cov=nc))
+                hc.set_n_ids(ni)
+                n_h = ni * nd
+                th_h = np.round(rng.uniform(0.8, 1.6, size=n_h), 3)
+                be_h = np.round(rng.uniform(-0.3, 0.3, size=n_h * nc), 3)
+                cv_h = np.round(rng.uniform(0.2, 1.0, size=(ni, nc)), 2)
+                ok_counts = hc.n_parameters() == n_h * (1 + nc) and len(hc.get_parameter_names()) == n_h * (1 + nc)
+                psi_h = None
+                if ok_counts:
+                    psi_h = np.asarray(hc.compute_individual_parameters(np.concatenate([th_h, be_h]), np.zeros((ni, nd)), cv_h),
+                                       dtype=float)
+            cnt['evaluations'] = cnt.get('evaluations', 0) + 1
+            if not ok_counts:
+                fail('Names', 'heterogeneous_leaf_after_set_n_ids', dict(n_parameters=hc.n_parameters(), expected=n_h * (1 + nc)))
+            else:
+                # parameter (individual i, dimension d) is entry i * nd + d of the leaf; its betas follow in selection order
+                pidx_h, didx_h = hc.get_covariate_model().get_set_population_parameters() if hasattr(hc, 'get_covariate_model') \
+                    else hc._covariate_model.get_set_population_parameters()
+                exp_h = th_h.reshape(ni, nd).copy()
+                for s_, (p_, d_) in enumerate(zip(pidx_h, didx_h)):
+                    exp_h[int(p_), int(d_)] += float(cv_h[int(p_)] @ be_h[s_ * nc:(s_ + 1) * nc])
+                if psi_h.shape != exp_h.shape or not interp.close(psi_h, exp_h):
+                    fail('Differential', 'heterogeneous_leaf_after_set_n_ids', dict(got=psi_h.tolist(), expected=exp_h.tolist()))
+        except Exception as e:
+            fail('Differential', type(e).__name__, dict(model='HeterogeneousModel after set_n_ids', error=repr(e)))
     # ---- the covariate population model against the underlying model ------------------------
     for cls, cen in LEAVES[nper]:
         def leaf():
